@@ -67,6 +67,29 @@ func (g *bundleGen) plantPlus() {
 			g.addRootOp("/dangling", ref)
 		}
 	}
+	if g.on("plusDanglingPart") {
+		// a $ref to an OPTIONAL part which its target does not have: in the spec model these positions are nil pointers of
+		// a pointer type (items, additionalProperties, additionalItems, the schema of a response), not missing map keys
+		g.addRootDef("partless", obj{"type": "object", "properties": obj{"p": obj{"type": "string"}}})
+		rd.paths["/partless"] = obj{"get": obj{"responses": obj{"204": obj{"description": "none"}}}}
+		targets := [][]string{
+			{"definitions", "partless", "items"},
+			{"definitions", "partless", "additionalProperties"},
+			{"definitions", "partless", "additionalItems"},
+			{"definitions", "partless", "properties", "p", "items"},
+			{"paths", "/partless", "get", "responses", "204", "schema"},
+		}
+		ref := obj{"$ref": mkRef("", targets[r.Intn(len(targets))]...)}
+		switch r.Intn(3) {
+		case 0:
+			g.addRootDef("hasDanglingPart", obj{"type": "object", "properties": obj{"gone": ref}})
+			g.addRootOp("/danglingpart", obj{"$ref": "#/definitions/hasDanglingPart"})
+		case 1:
+			g.addRootDef("hasDanglingPart", obj{"type": "array", "items": ref})
+		default:
+			g.addRootOp("/danglingpart", ref)
+		}
+	}
 	if g.on("plusMissingFile") {
 		ref := obj{"$ref": "nowhere/missing.json#/definitions/X"}
 		if r.P(50) {
@@ -453,7 +476,7 @@ func evalFailsafe(c *Case) *Verdict {
 		return v
 	}
 	if api == "Flatten" && base.status == "ok" && !c.Opts.ContinueOnError {
-		if hasFeature(c, "plusDangling") || hasFeature(c, "plusMissingFile") {
+		if hasFeature(c, "plusDangling") || hasFeature(c, "plusMissingFile") || hasFeature(c, "plusDanglingPart") {
 			sig := "dangling-local-or-remote"
 			if hasFeature(c, "plusMissingFile") {
 				sig = "missing-file"
